@@ -77,7 +77,7 @@ func NewVerifier(alg Algorithm, key crypto.PublicKey) (Verifier, error) {
 		}, nil
 	case AlgorithmEdDSA:
 		vk, ok := key.(ed25519.PublicKey)
-		if !ok {
+		if !ok || len(vk) != ed25519.PublicKeySize {
 			return nil, fmt.Errorf("%v: %w", alg, ErrInvalidPubKey)
 		}
 		return &ed25519Verifier{
